@@ -288,6 +288,9 @@ type fcore struct {
 	OnOp        func()
 	CrashBefore bool
 	ShortReads  bool
+	// InnerAppendErrs: errors the real store returned for appends that no fault of the plan touched and whose
+	// own context was still live when they returned
+	InnerAppendErrs []string
 	// AppendCalls counts calls that reached the decorator (for the no-retry rule)
 	AppendCalls int
 	AppendCtxErrAtReturn []bool
@@ -358,6 +361,9 @@ func (f *fcore) Append(ctx context.Context, ev *eventbus.Event) (eventbus.Offset
 		return "", errInjected
 	}
 	if err != nil {
+		if ctx.Err() == nil {
+			f.InnerAppendErrs = append(f.InnerAppendErrs, err.Error())
+		}
 		f.result(ev, "failed")
 	} else {
 		f.result(ev, "ok")
